@@ -148,12 +148,25 @@ func c01Normalisation(c *an.Ctx) {
 			if idx == nil || !strings.HasSuffix(an.Expr(m), ".data") {
 				return
 			}
-			// only keys derived from a string parameter named key
-			deps := an.Deps(idx)
+			// only keys derived from a string parameter (the caller-supplied key), whatever it is called and whether
+			// the folding is written inline or sits in a private helper (c.lookupKey(key)): the index is resolved to
+			// the values it can take, which must be the raw parameter, or strings.ToLower of it on a path where the
+			// collection is known not to be case sensitive
+			isKeyParam := func(v ssa.Value) bool {
+				p, ok := v.(*ssa.Parameter)
+				if !ok {
+					return false
+				}
+				b, isB := p.Type().Underlying().(*types.Basic)
+				return isB && b.Kind() == types.String
+			}
+			leaves := leavesOf(idx, nil, 0)
 			fromParam := false
-			for d := range deps {
-				if p, ok := d.(*ssa.Parameter); ok && p.Name() == "key" {
-					fromParam = true
+			for _, lf := range leaves {
+				for d := range an.Deps(lf.V) {
+					if isKeyParam(d) {
+						fromParam = true
+					}
 				}
 			}
 			if !fromParam {
@@ -163,22 +176,32 @@ func c01Normalisation(c *an.Ctx) {
 			k++
 			c.FuncsAnalysed[fn] = true
 			e := tempName.ReplaceAllString(an.Expr(idx), "")
-			okNorm := e == "φ(key|strings.ToLower(key))"
-			if okNorm {
-				// the folded edge is taken exactly when the collection is not case sensitive
-				okNorm = false
-				if phi, isPhi := idx.(*ssa.Phi); isPhi {
-					for i, ed := range phi.Edges {
-						if strings.HasPrefix(an.Expr(ed), "strings.ToLower(") {
-							f := an.FactsAtBlock(phi.Block().Preds[i])
-							for _, a := range f {
-								if strings.HasSuffix(a.L, ".isCaseSensitive") && a.Op == "==" && a.R == "false" {
-									okNorm = true
-								}
-							}
+			nRaw, nFold := 0, 0
+			okNorm := true
+			for _, lf := range leaves {
+				switch {
+				case isKeyParam(lf.V):
+					nRaw++
+				default:
+					call, isCall := lf.V.(*ssa.Call)
+					if !isCall || call.Call.StaticCallee() == nil || call.Call.StaticCallee().Pkg == nil || call.Call.StaticCallee().Pkg.Pkg.Path() != "strings" || call.Call.StaticCallee().Name() != "ToLower" || !isKeyParam(call.Call.Args[0]) {
+						okNorm = false
+						continue
+					}
+					nFold++
+					guarded := false
+					for _, a := range lf.F {
+						if strings.HasSuffix(a.L, ".isCaseSensitive") && a.Op == "==" && a.R == "false" {
+							guarded = true
 						}
 					}
+					if !guarded {
+						okNorm = false
+					}
 				}
+			}
+			if nRaw == 0 || nFold == 0 {
+				okNorm = false
 			}
 			c.Check(okNorm, "R1", fmt.Sprintf("key lookup #%d in %s folds like Map.Add", k, an.RelName(fn)), in.Pos(),
 				"data["+e+"] with the fold applied iff !isCaseSensitive", "the backing map is indexed with "+e+": the key is not folded the way Map.Add stores it (lower-cased iff the collection is case-insensitive), so a stored entry is missed or a wrong one is found")
@@ -650,7 +673,50 @@ func c01Order(c *an.Ctx) {
 	// Eval walks by ascending index: r = &rg.rules[i] with i the range index
 	if m := buildEvalModel(c, "R5"); m != nil {
 		recv := tempName.ReplaceAllString(an.Expr(an.CallOf(m.call).Args[0]), "")
-		c.Check(recv == "rg.rules[(*rangeindex + 1)]", "R5", "Eval evaluates rules[i] for ascending i", m.call.Pos(), recv, "Eval evaluates "+recv)
+		// the receiver is &<rule list>[idx] where the list is RuleGroup.rules (read directly or through a local
+		// taken before the loop) and idx is the loop's counter: a header value starting at 0 (or the hidden -1 of a
+		// range loop, used as counter+1) and incremented by exactly one on every back edge
+		okAsc := false
+		if ia, ok := an.CallOf(m.call).Args[0].(*ssa.IndexAddr); ok {
+			fromRules := false
+			for d := range an.Deps(ia.X) {
+				if fa, ok := d.(*ssa.FieldAddr); ok && an.FieldVar(fa) != nil && an.FieldVar(fa).Name() == "rules" && strings.HasSuffix(strings.TrimPrefix(fa.X.Type().String(), "*"), "corazawaf.RuleGroup") {
+					fromRules = true
+				}
+			}
+			idx, off := ia.Index, int64(0)
+			if b, ok := idx.(*ssa.BinOp); ok && b.Op == token.ADD {
+				if k, ok := an.ConstInt(b.Y); ok {
+					idx, off = b.X, k
+				}
+			}
+			if phi, ok := idx.(*ssa.Phi); ok && phi.Block() == m.loop.Header && fromRules {
+				okAsc = true
+				for j, e := range phi.Edges {
+					if !m.loop.Blocks[phi.Block().Preds[j]] {
+						if k, ok := an.ConstInt(e); !ok || k+off != 0 {
+							okAsc = false
+						}
+						continue
+					}
+					step := false
+					for _, lf := range leavesOf(e, nil, 0) {
+						if b, ok := lf.V.(*ssa.BinOp); ok && b.Op == token.ADD && b.X == ssa.Value(phi) {
+							if k, ok := an.ConstInt(b.Y); ok && k == 1 {
+								step = true
+								continue
+							}
+						}
+						step = false
+						break
+					}
+					if !step {
+						okAsc = false
+					}
+				}
+			}
+		}
+		c.Check(okAsc, "R5", "Eval evaluates rules[i] for ascending i", m.call.Pos(), recv, "Eval evaluates "+recv+", which is not the rule list indexed by a counter going 0,1,2,...")
 	}
 }
 
